@@ -13,8 +13,8 @@ import (
 
 	"github.com/ethereum/go-ethereum/common"
 	"github.com/gauss-project/aurorafs/pkg/boson"
-	"github.com/gauss-project/aurorafs/pkg/storage"
 	chequePkg "github.com/gauss-project/aurorafs/pkg/settlement/traffic/cheque"
+	"github.com/gauss-project/aurorafs/pkg/storage"
 	"verif/harness/internal/obs"
 	"verif/harness/internal/trafficx"
 )
@@ -43,22 +43,22 @@ type step struct {
 }
 
 type world struct {
-	t      *testing.T
-	run    *obs.Run
-	c      *obs.Case
-	self   *trafficx.Party
-	peers  []*peerM
-	chain  *trafficx.Chain
-	proto  *trafficx.Proto
-	cash   *trafficx.Cashout
-	store  storage.StateStorer
-	node   *trafficx.Node
-	B      *big.Int // chain balance of this node (stub truth)
-	seenB  *big.Int
-	drift0 *big.Int // unexplained difference of the available balance already reported
-	hist   []*step
+	t        *testing.T
+	run      *obs.Run
+	c        *obs.Case
+	self     *trafficx.Party
+	peers    []*peerM
+	chain    *trafficx.Chain
+	proto    *trafficx.Proto
+	cash     *trafficx.Cashout
+	store    storage.StateStorer
+	node     *trafficx.Node
+	B        *big.Int // chain balance of this node (stub truth)
+	seenB    *big.Int
+	drift0   *big.Int // unexplained difference of the available balance already reported
+	hist     []*step
 	failNext bool
-	pays   []string
+	pays     []string
 	// cash-out in flight
 	cashPeer   *peerM
 	cashStatus uint64
